@@ -816,6 +816,67 @@ class Item:
             self._log('R27', '%d one-element slice pattern(s) `if let [x] = v.as_slice()` -> `if v.len() == 1 { let x = &v[0];`' % k)
         return self
 
+    def r28_collect(self, elem_type=None):
+        """R28: `let mut N: VecDeque<T> = ITER.map(|x| BODY).collect();` (or without the map) ->
+        `let mut N: VecDeque<T> = VecDeque::new(); let mut __r28 = ITER; loop { match __r28.next() { Some(x) => { N.push_back(BODY); }
+        None => { break; } } }` — what collecting a mapped iterator into a VecDeque does, element by element, in order.  `T` written
+        as `_` is replaced by elem_type when given (the invariants of the new loop need the type spelled out)."""
+        self._no_splice_yet()
+        m = re.search(r'(?m)^([ \t]*)let mut (\w+): VecDeque<([^>\n]*)> =\s*', self.text)
+        if not m:
+            raise ExtractError('%s: R28 finds no `let mut N: VecDeque<..> = ..` statement' % self.name)
+        ind, name, ty = m.group(1), m.group(2), m.group(3)
+        # the statement runs to the `;` at bracket depth 0
+        j, depth = m.end(), 0
+        while j < len(self.text):
+            k = lex_skip(self.text, j)
+            if k is not None:
+                j = k
+                continue
+            ch = self.text[j]
+            if ch in '([{':
+                depth += 1
+            elif ch in ')]}':
+                depth -= 1
+            elif ch == ';' and depth == 0:
+                break
+            j += 1
+        expr = self.text[m.end():j].strip()
+        if not re.search(r'\.collect\(\)$', expr):
+            raise ExtractError('%s: R28 statement does not end in .collect(): %s' % (self.name, expr[-40:]))
+        expr = re.sub(r'\s*\.collect\(\)$', '', expr)
+        var, body = 's', None
+        mm = re.search(r'\.map\(\|(\w+)\|\s*', expr)
+        if mm:
+            # the closure body runs to the `)` matching `.map(`
+            o = expr.index('(', mm.start())
+            d, q = 0, o
+            while q < len(expr):
+                k = lex_skip(expr, q)
+                if k is not None:
+                    q = k
+                    continue
+                if expr[q] in '([{':
+                    d += 1
+                elif expr[q] in ')]}':
+                    d -= 1
+                    if d == 0:
+                        break
+                q += 1
+            if expr[q + 1:].strip():
+                raise ExtractError('%s: R28 finds adapters after .map(..): %s' % (self.name, expr[q + 1:].strip()[:40]))
+            var, body = mm.group(1), expr[mm.end():q].strip()
+            expr = expr[:mm.start()].rstrip()
+        if body is None:
+            body = var
+        if ty.strip() == '_' and elem_type:
+            ty = elem_type
+        new = ('%slet mut %s: VecDeque<%s> = VecDeque::new();\n%slet mut __r28 = %s;\n%sloop {\n%s    match __r28.next() {\n%s        Some(%s) => { %s.push_back(%s); }\n%s        None => { break; }\n%s    }\n%s}'
+               % (ind, name, ty, ind, expr, ind, ind, ind, var, name, body, ind, ind, ind))
+        self.text = self.text[:m.start()] + new + self.text[j + 1:]
+        self._log('R28', 'collect of %s into VecDeque `%s` -> explicit loop over next() with push_back' % ('a mapped iterator' if mm else 'an iterator', name))
+        return self
+
     def r21(self, fn_name, ordinal):
         """`for (OFF, C) in E.char_indices() { B }` -> counted loop over the characters (a Vec<char> from the str_chars_vec stub) with a
         running byte offset: OFF is the sum of len_utf8 of the characters before C.  The counters are advanced at the top of the body,
